@@ -95,7 +95,7 @@ func c12NoOverwriteRule(w *World, r *Report, rule string) {
 			}
 			isName := func(v ssa.Value) bool {
 				c, ok := v.(*ssa.Call)
-				return ok && c.Call.IsInvoke() && c.Call.Method.Name() == "Name"
+				return ok && c.Call.IsInvoke() && nm(c.Call.Method) == "Name"
 			}
 			if !(isName(bo.X) && isName(bo.Y)) {
 				continue
@@ -150,7 +150,7 @@ func c12LexicalScope(w *World, r *Report) {
 					continue
 				}
 				cc := c.Common()
-				if cc.IsInvoke() && cc.Method.Name() == "UsesRoot" {
+				if cc.IsInvoke() && nm(cc.Method) == "UsesRoot" {
 					n["uses"]++
 					r.Fail("R12.7", "UsesRoot() consulted in "+funcKey(f), in.Pos(), "the compiler looks at the using module of a grouping-derived node: a reference written in the grouping would be resolved in the wrong module")
 					continue
@@ -169,7 +169,7 @@ func c12LexicalScope(w *World, r *Report) {
 					}
 					switch x := v.(type) {
 					case *ssa.Call:
-						if x.Call.IsInvoke() && x.Call.Method.Name() == "Root" {
+						if x.Call.IsInvoke() && nm(x.Call.Method) == "Root" {
 							good = "Root() of the referring statement"
 							return true
 						}
@@ -321,7 +321,7 @@ func c15TextAndScope(w *World, r *Report, rule string, want func(fn string) bool
 		for _, cb := range cf.Blocks {
 			for _, ci := range cb.Instrs {
 				cc, ok := ci.(*ssa.Call)
-				if !ok || !cc.Call.IsInvoke() || cc.Call.Method.Name() != "YangPrefixToNamespace" {
+				if !ok || !cc.Call.IsInvoke() || nm(cc.Call.Method) != "YangPrefixToNamespace" {
 					continue
 				}
 				if fv, ok := cellOf(cc.Call.Value).(*ssa.FreeVar); ok {
@@ -392,7 +392,7 @@ func c15TextAndScope(w *World, r *Report, rule string, want func(fn string) bool
 				// a helper only one of the named functions uses counts as that function
 				named := false
 				for _, g := range w.OwnerChain(f) {
-					if g.Name() == "BuildWhens" || g.Name() == "BuildMusts" || g.Name() == "getPath" {
+					if nm(g) == "BuildWhens" || nm(g) == "BuildMusts" || nm(g) == "getPath" {
 						named = true
 					}
 				}
@@ -419,7 +419,7 @@ func c14StaleStatus(w *World, r *Report) {
 	n := 0
 	for _, f := range allFuncs(sp) {
 		for _, p := range f.Params {
-			if nt, ok := p.Type().(*types.Named); !ok || nt.Obj().Name() != "Status" || nt.Obj().Pkg() == nil || nt.Obj().Pkg().Name() != "schema" {
+			if nt, ok := p.Type().(*types.Named); !ok || nm(nt.Obj()) != "Status" || nt.Obj().Pkg() == nil || nm(nt.Obj().Pkg()) != "schema" {
 				continue
 			}
 			// the derivation: a phi that merges the parameter with the node's own
@@ -494,11 +494,11 @@ func c12InheritUnconditional(w *World, r *Report, rule string) {
 	if len(f.Blocks) > 0 {
 		for _, in := range f.Blocks[0].Instrs {
 			c, ok := in.(*ssa.Call)
-			if !ok || !c.Call.IsInvoke() || (c.Call.Method.Name() != "AddChildren" && c.Call.Method.Name() != "AddWhenChildren") || c.Call.Value != ssa.Value(f.Params[1]) {
+			if !ok || !c.Call.IsInvoke() || (nm(c.Call.Method) != "AddChildren" && nm(c.Call.Method) != "AddWhenChildren") || c.Call.Value != ssa.Value(f.Params[1]) {
 				continue
 			}
 			src, ok := c.Call.Args[len(c.Call.Args)-1].(*ssa.Call)
-			if !ok || !src.Call.IsInvoke() || src.Call.Method.Name() != "ChildrenByType" || src.Call.Value != ssa.Value(f.Params[0]) {
+			if !ok || !src.Call.IsInvoke() || nm(src.Call.Method) != "ChildrenByType" || src.Call.Value != ssa.Value(f.Params[0]) {
 				continue
 			}
 			if k, ok := src.Call.Args[0].(*ssa.Const); ok && k.Value != nil {
@@ -529,7 +529,7 @@ func c14NotSupportedExclusive(w *World, r *Report) {
 	for _, b := range f.Blocks {
 		for _, in := range b.Instrs {
 			c, ok := in.(*ssa.Call)
-			if !ok || c.Call.StaticCallee() == nil || c.Call.StaticCallee().Name() != "doDeviate" {
+			if !ok || c.Call.StaticCallee() == nil || nm(c.Call.StaticCallee()) != "doDeviate" {
 				continue
 			}
 			last := c.Call.Args[len(c.Call.Args)-1]
@@ -559,7 +559,7 @@ func c14NotSupportedExclusive(w *World, r *Report) {
 		if v, _ := constant.Int64Val(constant.ToInt(k.Value)); v != 1 {
 			continue
 		}
-		if bi, isB := ln.Call.Value.(*ssa.Builtin); !isB || bi.Name() != "len" {
+		if bi, isB := ln.Call.Value.(*ssa.Builtin); !isB || nm(bi) != "len" {
 			continue
 		}
 		raises := false
@@ -595,7 +595,7 @@ func c13EveryPartChecked(w *World, r *Report) {
 	// index argument of ranges.GetEnd(k) / GetStart(k) inside LessThan(GetEnd(k), GetStart(k))
 	partIndex := func(c ssa.Value) (ssa.Value, bool) {
 		call, ok := c.(*ssa.Call)
-		if !ok || !call.Call.IsInvoke() || call.Call.Method.Name() != "LessThan" || len(call.Call.Args) != 2 {
+		if !ok || !call.Call.IsInvoke() || nm(call.Call.Method) != "LessThan" || len(call.Call.Args) != 2 {
 			return nil, false
 		}
 		get := func(v ssa.Value, name string) ssa.Value {
@@ -701,7 +701,7 @@ func c12EveryWhenMust(w *World, r *Report) {
 			panic(undecided{"Compiler." + c.fn})
 		}
 		found, ok, why := everyIterationAppends(f, func(call *ssa.Call) bool {
-			return call.Call.StaticCallee() != nil && call.Call.StaticCallee().Name() == c.ctor
+			return call.Call.StaticCallee() != nil && nm(call.Call.StaticCallee()) == c.ctor
 		})
 		if !found {
 			panic(undecided{c.fn + ": loop over the statements"})
@@ -734,7 +734,7 @@ func c14DeviateInterleaved(w *World, r *Report) {
 				if !ok || !c.Call.IsInvoke() {
 					continue
 				}
-				switch c.Call.Method.Name() {
+				switch nm(c.Call.Method) {
 				case "isAllowed":
 					chk = c
 				case "propertyAction":
@@ -796,7 +796,7 @@ func c20UniqueWalk(w *World, r *Report) {
 		for b := range loops[i].body() {
 			for _, in := range b.Instrs {
 				if ia, ok := in.(*ssa.IndexAddr); ok {
-					if c, ok := ia.X.(*ssa.Call); ok && c.Call.IsInvoke() && c.Call.Method.Name() == "Uniques" {
+					if c, ok := ia.X.(*ssa.Call); ok && c.Call.IsInvoke() && nm(c.Call.Method) == "Uniques" {
 						if outer == nil || len(loops[i].body()) > len(outer.body()) {
 							outer = &loops[i]
 						}
@@ -822,7 +822,7 @@ func c20UniqueWalk(w *World, r *Report) {
 		}
 		isName := func(v ssa.Value) bool {
 			c, ok := v.(*ssa.Call)
-			return ok && c.Call.IsInvoke() && c.Call.Method.Name() == "Name"
+			return ok && c.Call.IsInvoke() && nm(c.Call.Method) == "Name"
 		}
 		if !isName(bo.X) && !isName(bo.Y) {
 			continue
@@ -929,7 +929,7 @@ func c18ArgumentRoles(w *World, r *Report) {
 				if !ok {
 					continue
 				}
-				if sc := c.Call.StaticCallee(); sc != nil && (sc.Name() == "isAChoice" || sc.Name() == "isACaseChoice") {
+				if sc := c.Call.StaticCallee(); sc != nil && (nm(sc) == "isAChoice" || nm(sc) == "isACaseChoice") {
 					sites = append(sites, site{fn + ": " + sc.Name(), c.Call.Args, c.Pos()})
 				} else if p, ok := c.Call.Value.(*ssa.Parameter); ok && !c.Call.IsInvoke() {
 					if _, isSig := p.Type().Underlying().(*types.Signature); isSig {
